@@ -308,22 +308,26 @@ Fixpoint eval (fuel : nat) (s : state) (v : value) {struct fuel} : state * res v
              end) s l in
           (s', match r with Ok l' => Ok (VTuple l') | Raise e => Raise e end)
       | VDict l =>
-          let '(s', r) := (fix go (s : state) (l : list (value * value)) : state * res (list (value * value)) :=
+          (* copy._deepcopy_dict: y = {}; for key, value in x.items(): y[deepcopy(key, memo)] = deepcopy(value, memo).
+             Python evaluates the right-hand side of the assignment first: the VALUE of an item is copied (its
+             references run) before its KEY; the store y[k'] = x' hashes k' (TypeError for a list / dict) and, when an
+             equal key is already in y, replaces that entry's value in place *)
+          let '(s', r) := (fix go (s : state) (l : list (value * value)) (y : list (value * value))
+                             : state * res (list (value * value)) :=
              match l with
-             | [] => (s, Ok [])
+             | [] => (s, Ok y)
              | (k, x) :: t =>
-                 let '(s0, rk) := eval f s k in
-                 match rk with
+                 let '(s0, rx) := eval f s x in
+                 match rx with
                  | Raise e => (s0, Raise e)
-                 | Ok k' =>
-                     let '(s1, rx) := eval f s0 x in
-                     match rx with
+                 | Ok x' =>
+                     let '(s1, rk) := eval f s0 k in
+                     match rk with
                      | Raise e => (s1, Raise e)
-                     | Ok x' => let '(s2, rt) := go s1 t in
-                                match rt with Raise e => (s2, Raise e) | Ok t' => (s2, Ok ((k', x') :: t')) end
+                     | Ok k' => if py_hashable k' then go s1 t (vdict_set k' x' y) else (s1, Raise "TypeError")
                      end
                  end
-             end) s l in
+             end) s l [] in
           (s', match r with Ok l' => Ok (VDict l') | Raise e => Raise e end)
       | VRef sc sel true => call_handle f s sc sel [] []
       | VRef sc sel false => (s, Ok (VHandle sc sel))
